@@ -385,6 +385,18 @@ def main(rep, tier, seed):
     names, regenerated, terr = regenerate()
     tinfo = {"source": RING_SRC, "generated_file": "coq/gen/RingGen.v", "rewritten": bool(regenerated),
              "definitions": len(names or []), "translate_s": round(time.time() - t0, 2), "error": terr}
+    if terr is None:
+        # self-test of "never silently skipped": single-token edits of the method bodies must be rejected or change the output
+        try:
+            sens = T.sensitivity(open(RING_SRC).read())
+        except (T.TranslateError, OSError) as e:
+            sens = dict(sites=0, tried=0, rejected=0, changed=0, ignored=[f"self-test failed: {e}"])
+        tinfo["sensitivity_self_test"] = dict(single_token_edits=sens["tried"], rejected=sens["rejected"],
+                                              change_the_generated_model=sens["changed"], ignored=len(sens["ignored"]))
+        tinfo["translate_s"] = round(time.time() - t0, 2)
+        if sens["ignored"]:
+            rep.violation("translator_insensitive", {"kind": "translate/ring2coq.py ignores part of a method body: an edit of the source leaves the generated model unchanged",
+                                                    "edits": sens["ignored"][:20]}, no_input=True)
     if TEST_RING:
         rep.notes.append(f"note: DASP_RING_RS={TEST_RING} (testing mode: the translator reads this file instead of /repo's lib.rs; "
                          + ("the harness is a scratch build of the same file under out/c06_scratch)" if TEST_HARNESS
